@@ -521,6 +521,8 @@ class FakeK8s:
             return Resp(401, status_payload(401, 'Unauthorized'))
         resp = self._serve(req)
         extra = {k: v for k, v in req.__dict__.get('info', {}).items()}
+        if r.get('kind') == 'patch' and r.get('plural') in self.keep_bodies and 'pbody' not in extra:
+            extra['pbody'] = copy.deepcopy(req.body)
         self.rec('srv.req', req=req.id, loop=owner, code=resp.status, gen=req.session.gen, **r, **extra)
         return resp
 
